@@ -734,8 +734,15 @@ func (s *c12StorageRun) shadowProbe() {
 			Form: "header", Header: D.Path, Path: rel + "raw", Data: map[string]any{"call": "put", "key": M.Tag + "/by-child", "value": "x"}}
 		s.do(q)
 		s.r.Count("shadow_mount_probes", 1)
-		s.checkStorage(q)
+		inside, _ := s.checkStorage(q)
 		handled, at := q.handled()
+		// the put must have landed in storage of the parent namespace's mount, outside
+		// the storage of the child namespace
+		genuine := inside > 0 && strings.HasPrefix(M.Prefix, M.NS.Prefix) && !strings.HasPrefix(M.Prefix, D.Prefix)
+		if handled && !genuine {
+			s.r.Count("shadow_mount_probes_ambiguous", 1)
+			continue
+		}
 		if handled && at == M.NS.Path+M.api() && !M.shadowReported {
 			M.shadowReported = true
 			s.violate("C12-mount-inside-sealed-namespace-path-served-to-child-token",
